@@ -51,6 +51,62 @@ def kind_of_param(p):
     return "angle" if p == "theta" else "plain"
 
 
+# how the multi-band fitters name the sites of their link functions; refreshed from the real fitters' traces by `probe_link_names`
+LINK_TMPL = dict(poly="{n}_poly_coeff", spline="bspl_w_{n}")
+
+
+def probe_child(payload):
+    """site names of real FitMultiBandPoly / FitMultiBandBSpline models with `theta` linked: the link-coefficient site is the one
+    that is neither a per-band value, nor the saved `_at_wv` value, nor an internal `_base` / `_auto_loc` variable"""
+    import jax
+    import jax.numpy as jnp
+    from numpyro import handlers
+    import pysersic.multiband as MB
+    from . import pyutil as U
+
+    class _JNP:
+        def __getattr__(self, name):
+            return getattr(jnp, name)
+
+        @staticmethod
+        def clip(x, a_min=None, a_max=None, **kw):
+            return jnp.clip(x, min=a_min, max=a_max)
+    MB.jnp = _JNP()
+    out = {}
+    rng = np.random.default_rng(0)
+    for kind in ("poly", "spline"):
+        try:
+            fitters = []
+            for _ in range(3):
+                data, rms, psf = U.make_images(rng, 10)
+                prior = U.source_prior("sersic", sky_type="none", xc=5.0, yc=5.0, flux=60.0, r_eff=2.0)
+                fitters.append(U.pysersic.FitSingle(data, rms, psf, prior, renderer=U.RD.PixelRenderer))
+            common = dict(fitter_list=fitters, wavelengths=jnp.asarray([1.0, 2.0, 3.0]), linked_params=["theta"], const_params=["xc", "yc"],
+                          band_names=["g", "r", "i"], wv_to_save=jnp.asarray([1.5]))
+            top = MB.FitMultiBandPoly(poly_order=1, **common) if kind == "poly" else MB.FitMultiBandBSpline(N_knots=4, spline_k=2, **common)
+            tr = handlers.trace(handlers.seed(top.build_model(), jax.random.PRNGKey(0))).get_trace()
+            names = [k for k in tr if "theta" in k and k not in ("theta_g", "theta_r", "theta_i", "theta_at_wv")
+                     and not k.endswith("_base") and "_auto_" not in k]
+            out[kind] = names
+        except Exception as e:
+            out[kind] = f"error {type(e).__name__}: {e}"
+    return out
+
+
+def probe_link_names():
+    """Refresh LINK_TMPL from the real fitters; returns a note for the evidence."""
+    from .common import run_children
+    got = run_children("c19", "probe_child", [dict()], x64=False)[0]
+    note = {}
+    for kind, names in got.items():
+        if isinstance(names, list) and len(names) == 1 and "theta" in names[0]:
+            LINK_TMPL[kind] = names[0].replace("theta", "{n}")
+            note[kind] = names[0]
+        else:
+            note[kind] = f"kept {LINK_TMPL[kind]} ({names})"
+    return note
+
+
 def gen_config(rng):
     """Return list of (name, kind, extra_dims)."""
     style = rng.choice(["single", "multi", "multiband-poly", "multiband-spline", "multiband-multi"])
@@ -111,11 +167,13 @@ def gen_config(rng):
             kd = kind_of_param(base)
             if n in linked:
                 if link == "poly":
-                    out.append((f"{n}_poly_coeff", "link", (f"{n}_poly_coeff_dim_0",)))
+                    pn = LINK_TMPL["poly"].format(n=n)
+                    out.append((pn, "link", (f"{pn}_dim_0",)))
                 else:
-                    out.append((f"bspl_w_{n}", "link", (f"bspl_w_{n}_dim_0",)))
+                    sn = LINK_TMPL["spline"].format(n=n)
+                    out.append((sn, "link", (f"{sn}_dim_0",)))
                     if with_base:
-                        out.append((f"bspl_w_{n}_base", "internal", (f"bspl_w_{n}_base_dim_0",)))
+                        out.append((f"{sn}_base", "internal", (f"{sn}_base_dim_0",)))
                 out.append((f"{n}_at_wv", kd, (f"{n}_at_wv_dim_0",)))
                 for b in bands:
                     out.append((f"{n}_{b}", kd, ()))
@@ -142,8 +200,13 @@ def gen_config(rng):
 
 def make_values(rng, nchain, ndraw, extra):
     shape = (nchain, ndraw) + tuple(3 for _ in extra)
-    style = rng.integers(0, 4)
-    if style == 0:
+    style = rng.integers(0, 5)
+    if style == 4:
+        # the edges of the reporting interval: values a rounding step away from a multiple of π, on either side
+        edge = np.array([0.0, -0.0, -1e-17, -5e-324, -2.2e-16, 1e-17, -1e-300, math.pi, -math.pi, np.nextafter(math.pi, 0.0), np.nextafter(math.pi, 4.0),
+                         np.nextafter(-math.pi, 0.0), 2 * math.pi, -2 * math.pi])
+        v = rng.choice(edge, size=shape)
+    elif style == 0:
         v = rng.uniform(-100, 100, size=shape)
     elif style == 1:
         v = rng.normal(0, 3, size=shape)
@@ -192,6 +255,7 @@ def correspondence(ctx):
     ncfg = 300 if ctx.tier == "quick" else 5000
     disagreements, violations = [], []
     stats = dict(styles={}, kinds={}, wrapped_vars=0, dropped_vars=0, model_vars=0, names=0, chains={}, purge={})
+    stats["link_site_names_from_real_fitters"] = probe_link_names()
     distinct = set()
     samples = []
     evals = 0
